@@ -136,10 +136,13 @@ def regenerate(ctx):
     out = []
 
     def emit(name, params, s, doc):
+        # a parameter that no longer occurs in the trace stays in the signature (the definition simply ignores it: the
+        # theorems about it then fail to check, which is the point); an unexpected new symbol is a translator failure
         used = _vars_of(s.node)
-        if used != set(params):
-            raise RuntimeError('trace of %s: parameters lost %s / unexpected %s' % (name, sorted(set(params) - used), sorted(used - set(params))))
-        out.append(emit_def(name, params, s, doc=doc)[0])
+        if used - set(params):
+            raise RuntimeError('trace of %s: unexpected symbols %s' % (name, sorted(used - set(params))))
+        lost = sorted(set(params) - used)
+        out.append(emit_def(name, params, s, doc=doc + (' [NOT USED by the traced code: %s]' % ', '.join(lost) if lost else ''))[0])
 
     def path():
         p = [(op, r) for (op, _, _, r) in sym.PATH]
@@ -328,3 +331,716 @@ def regenerate(ctx):
     text = sym.HEADER + '\nnamespace KawinV.Gen.C12\n\n' + ''.join(out) + 'end KawinV.Gen.C12\n'
     changed = vlib.write_if_changed(GEN_FILE, text)
     return [os.path.relpath(GEN_FILE, vlib.VERIF)] if changed else []
+
+
+# =====================================================================================================
+# part 1: translator validation + algebraic clauses on the real functions
+# =====================================================================================================
+SHAPES = ['sphere', 'needle', 'plate', 'cubic']
+
+
+def gen_formula_case(rng):
+    shape = rng.choice(SHAPES + ['sphere'])
+    E = rng.choice([0.0, 0.0, 10 ** rng.uniform(5, 8.3), 10 ** rng.uniform(6.5, 8.0)])
+    return dict(shape=shape, ar=1.0 if shape == 'sphere' else rng.choice([1.0, 1.5, 2.5, 4.0, rng.uniform(1.01, 8)]),
+                E=E, gamma=10 ** rng.uniform(-2.3, 0.2), Vm=10 ** rng.uniform(-5.4, -4.5),
+                dG=rng.choice([1, 1, 1, 1, -1]) * 10 ** rng.uniform(1.0, 4.7),
+                Rmin=rng.choice([3e-10, 3e-10, 1e-9, 10 ** rng.uniform(-10.5, -8)]),
+                site=rng.choice(['bulk', 'dislocations']),
+                mc=10 ** rng.uniform(-26, -18), D=10 ** rng.uniform(-22, -16),
+                x=10 ** rng.uniform(-4, -1.3), xa=10 ** rng.uniform(-4.5, -1.2), xb=rng.choice([0.25, 0.2, rng.uniform(0.1, 0.6)]),
+                vr=rng.choice([1.0, 1.0, rng.uniform(0.8, 1.25)]), Rrel=10 ** rng.uniform(-0.7, 0.7), Rprev=10 ** rng.uniform(-9.5, -8))
+
+
+def real_prec(c):
+    NR, PP, KE, SF, MT = _kawin()
+    p = PP.PrecipitateParameters('P')
+    if c['shape'] != 'sphere':
+        p.shapeFactor.setPrecipitateShape(c['shape'], c['ar'])
+    p.strainEnergy.setConstantElasticEnergy(c['E'])
+    p.nucleation.setNucleationType(c['site'])
+    p.gamma = c['gamma']
+    p.volume.Vm = c['Vm']
+    p.Rmin = c['Rmin']
+    return p
+
+
+def eval_formula_case(c):
+    """all REAL calls of one case; returns dict of implementation values"""
+    NR, PP, KE, SF, MT = _kawin()
+    NS = types.SimpleNamespace
+    p = real_prec(c)
+    o = {}
+    ar_nuc = p.shapeFactor.aspectRatio(c['Rprev'])              # as _calcNucleationRate: aspect ratio at the previous Rcrit
+    therm = NS(numElements=2, getDrivingForce=lambda x, T, precPhase=None, removeCache=False: (np.array([c['dG']]), np.array([0.25])))
+    chem, vol, _ = NR.volumetricDrivingForce(therm, 0.004, 700.0, p, ar_nuc)
+    o['chem'], o['vol'] = float(chem), float(vol)
+    Rc, Gc = NR.nucleationBarrier(vol, p, ar_nuc)
+    o['Rcrit'], o['Gcrit'] = float(Rc), float(Gc)
+    o['f_nuc'] = float(p.shapeFactor.description.thermoFactor(ar_nuc))
+    o['E_nuc'] = float(p.strainEnergy.compute(p.shapeFactor.description.normalRadii(ar_nuc)))
+    # radii: relative to the unclamped critical radius when there is one
+    base = 2 * o['f_nuc'] * c['gamma'] / o['vol'] if o['vol'] > 0 else 2e-9
+    base = min(max(base, 2e-11), 1e-6)
+    rel = [0.3, 0.8, 0.97, 1.03, 1.25, 3.0, c['Rrel']]
+    R = np.array([base * r for r in rel])
+    o['R'] = R.tolist()
+    o['f'] = np.atleast_1d(p.shapeFactor.thermoFactor(R)).astype(float).tolist()
+    o['kf'] = np.atleast_1d(p.shapeFactor.kineticFactor(R)).astype(float).tolist()
+    o['E_R'] = np.atleast_1d(p.computeStrainEnergyFromR(R)).astype(float).tolist()
+    o['gExtra'] = np.atleast_1d(p.computeGibbsThomsonContribution(R)).astype(float).tolist()
+    o['gExtra_at_Rcrit'] = float(p.computeGibbsThomsonContribution(o['Rcrit'])) if o['Rcrit'] > 0 else None
+    # growth law
+    curv = MT.CurvatureOutput(dc=np.array([0.01, 0.02]), mc=c['mc'], gba=np.eye(2), beta=1.0,
+                              c_eq_alpha=np.array([0.05, 0.06]), c_eq_beta=np.array([0.2, 0.1]))
+    go = MT._growthRateOutputFromCurvature(np.array([0.08, 0.1]), c['dG'], R, np.array(o['gExtra']), curv)
+    o['growthMulti'] = np.atleast_1d(go.growth_rate).astype(float).tolist()
+    # KWN glue on a real model object (thermodynamics replaced by the real growth law with a fixed curvature output)
+    with warnings.catch_warnings():
+        warnings.simplefilter('ignore')
+        m = KE.PrecipitateModel(phases=['P'], elements=['A', 'B'])
+    m.precipitateParameters[0] = p
+    m.PBM[0].PSDbounds = R.copy(); m.PBM[0].bins = len(R) - 1
+    m.removeCache = False
+    m._precBetaTemp = [None]; m.PSDXalpha = [None]; m.PSDXbeta = [None]
+    m.pData.Rcrit[m.pData.n, 0] = c['Rprev']
+    seen = {}
+
+    def ggic(x, T, dG, Rr, gExtra, precPhase=None, removeCache=False, searchDir=None):
+        seen['dG'] = float(dG)
+        r = MT._growthRateOutputFromCurvature(np.array([0.08, 0.1]), dG, Rr, gExtra, curv)
+        return r.growth_rate, r.c_alpha, r.c_beta, r.c_eq_alpha, r.c_eq_beta
+    m.therm = NS(getGrowthAndInterfacialComposition=ggic)
+    Y = NS(composition=[np.array([0.08, 0.1])], drivingForce=[np.array([o['vol']])], temperature=[1073.0],
+           precipitateDensity=[np.array([1.0])], Rcrit=np.array([[c['Rprev']]]))
+    gk, _, _ = m._singleGrowthMulti(0, Y)
+    o['growthKWN'] = np.atleast_1d(gk).astype(float).tolist()
+    o['dG_handed'] = seen.get('dG')
+    # binary growth law on a real model object
+    with warnings.catch_warnings():
+        warnings.simplefilter('ignore')
+        mb = KE.PrecipitateModel(phases=['P'], elements=['B'])
+    mb.precipitateParameters[0] = p
+    mb.matrixParameters.volume.Vm = c['Vm'] * c['vr']
+    mb.PBM[0].PSDbounds = R.copy(); mb.PBM[0].bins = len(R) - 1
+    mb.removeCache = False
+    mb.RdrivingForceIndex = np.zeros(1, dtype=np.int32)
+    xa = np.array([c['xa'] * k for k in (3.0, 1.5, 1.1, 0.95, 0.8, 0.5, 1.0)])
+    xbv = np.full(len(R), c['xb'])
+    mb.PSDXalpha = [xa.reshape(-1, 1).copy()]; mb.PSDXbeta = [xbv.reshape(-1, 1).copy()]
+    mb.therm = NS(getInterdiffusivity=lambda x, T, removeCache=False: c['D'])
+    Yb = NS(composition=[np.array([c['x']])], temperature=[700.0])
+    with np.errstate(all='ignore'):
+        gb = mb._singleGrowthBinary(0, Yb)
+        S = (c['x'] - xa) / (c['Vm'] * c['vr'] * xbv / c['Vm'] - xa)
+        eff = mb.matrixParameters.effectiveDiffusion(S)
+    o['xaB'] = xa.tolist(); o['S'] = S.tolist(); o['eff'] = np.asarray(eff, dtype=float).tolist()
+    o['growthBinary'] = np.atleast_1d(gb).astype(float).tolist()
+    return o
+
+
+def part_formulas(ctx, res, N, use_driver=True):
+    cases = [gen_formula_case(ctx.rng) for _ in range(N)]
+    return check_formula_cases(ctx, res, cases, use_driver)
+
+
+def check_formula_cases(ctx, res, cases, use_driver=True):
+    impl, lines, slots = [], [], []
+    for c in cases:
+        o = eval_formula_case(c)
+        impl.append(o)
+        sl = {}
+        nR = len(o['R'])
+        sl['gt'] = len(lines)
+        for j in range(nR):
+            lines.append('gen.gt %s' % ' '.join(f2b(v) for v in (c['Vm'], o['E_R'][j], o['f'][j], c['gamma'], o['R'][j], c['dG'])))
+        sl['rc'] = len(lines)
+        lines.append('ic.rcrit %s' % ' '.join(f2b(v) for v in (o['f_nuc'], c['gamma'], o['vol'], c['Rmin'])))
+        sl['multi'] = len(lines)
+        for j in range(nR):
+            lines.append('gen.multi %s' % ' '.join(f2b(v) for v in (c['mc'], o['R'][j], c['dG'], o['gExtra'][j])))
+        sl['kwn'] = len(lines)
+        for j in range(nR):
+            lines.append('gen.kwn %s' % ' '.join(f2b(v) for v in (o['kf'][j], c['mc'], o['R'][j], o['vol'], c['Vm'], o['E_R'][j], o['f'][j], c['gamma'])))
+        sl['bin'] = len(lines)
+        for j in range(nR):
+            lines.append('gen.bin %s' % ' '.join(f2b(v) for v in (o['kf'][j], c['D'], o['eff'][j], c['x'], o['xaB'][j], c['xb'], c['Vm'] * c['vr'], c['Vm'], o['R'][j])))
+        slots.append(sl)
+    model = vlib.run_driver(PROP, lines) if (use_driver and ctx.driver_ok) else None
+
+    def mflts(i):
+        t = Toks(model[i])
+        return t.flts() if t.ok else None
+
+    def mflt(i):
+        t = Toks(model[i])
+        return t.flt() if t.ok else None
+
+    for c, o, sl in zip(cases, impl, slots):
+        nR = len(o['R'])
+        unclamped = o['vol'] > 0 and o['Rcrit'] > c['Rmin'] * (1 + 1e-9)
+        res.case(('formula', c['shape'], round(c['ar'], 6), c['E'], c['gamma'], c['dG']), o['vol'] > 0)
+        res.count('formula:shape:' + c['shape']); res.count('formula:strain' if c['E'] else 'formula:no-strain')
+        res.count('formula:unclamped' if unclamped else 'formula:clamped' if o['vol'] > 0 else 'formula:dG<=0')
+        desc = dict(c, Rcrit=o['Rcrit'], volDG=o['vol'], f=o['f_nuc'], E_eff=o['E_nuc'])
+        if len(res.samples) < 2:
+            res.sample(dict(desc, gExtra_at_Rcrit=o['gExtra_at_Rcrit'], growthKWN=o['growthKWN'][:6]))
+        # ------------------------------------------------ hypotheses "constant aspect ratio, constant strain energy"
+        if not (all(close(v, o['f_nuc'], 1e-12) for v in o['f']) and all(close(v, o['E_nuc'], 1e-12, abs(c['E'])) for v in o['E_R'])):
+            res.violate('constant-shape-and-strain', 'thermodynamic factor / strain energy differ between size classes or from the value used for nucleation although aspect ratio and strain energy are constant', desc,
+                        [o['f'], o['E_R']], [o['f_nuc'], o['E_nuc']])
+        # ------------------------------------------------ translator validation / correspondence
+        if model is not None:
+            for j in range(nR):
+                g = mflts(sl['gt'] + j)
+                if g is None or not close(g[0], o['gExtra'][j], 1e-9):
+                    res.disagree('gen gExtra vs computeGibbsThomsonContribution', dict(desc, R=o['R'][j]), o['gExtra'][j], g)
+                if g is not None and not close(g[1], o['vol'], 1e-9, abs(c['E']) + abs(c['dG'] / c['Vm'])):
+                    res.disagree('gen volDG vs volumetricDrivingForce', desc, o['vol'], g[1])
+                v = mflt(sl['multi'] + j)
+                if v is None or not close(v, o['growthMulti'][j], 1e-9, abs(c['mc'] / o['R'][j]) * (abs(c['dG']) + abs(o['gExtra'][j]))):
+                    res.disagree('gen growthMulti vs _growthRateOutputFromCurvature', dict(desc, R=o['R'][j]), o['growthMulti'][j], v)
+                v = mflt(sl['kwn'] + j)
+                sc = abs(o['kf'][j] * c['mc'] / o['R'][j]) * (abs(o['vol'] * c['Vm']) + abs(o['gExtra'][j]) + abs(c['E'] * c['Vm']))
+                if v is None or not close(v, o['growthKWN'][j], 1e-9, sc):
+                    res.disagree('gen growthMultiKWN vs PrecipitateModel._singleGrowthMulti', dict(desc, R=o['R'][j]), o['growthKWN'][j], v)
+                b = mflts(sl['bin'] + j)
+                if b is None or not close(b[0], o['S'][j], 1e-9, 1e-300) or not (close(b[1], o['growthBinary'][j], 1e-9) or (o['eff'][j] == 0)):
+                    res.disagree('gen superSat/growthBinary vs _singleGrowthBinary', dict(desc, j=j), [o['S'][j], o['growthBinary'][j]], b)
+            r = mflts(sl['rc'])
+            if r is None or not close(r[0], o['Rcrit'], 1e-12) or not close(r[1], o['Gcrit'], 1e-9):
+                res.disagree('model rcritUsed/gcrit vs nucleationBarrier', desc, [o['Rcrit'], o['Gcrit']], r)
+        # ------------------------------------------------ direct oracle (real values only)
+        if o['vol'] > 0:
+            if o['Rcrit'] < c['Rmin'] * (1 - 1e-12):
+                res.violate('rcrit-below-rmin', 'recorded critical radius below Rmin', desc, o['Rcrit'], c['Rmin'])
+        else:
+            if o['Rcrit'] != 0 or o['Gcrit'] != 0:
+                res.violate('barrier-without-driving-force', 'non-zero critical radius / barrier for non-positive driving force', desc, [o['Rcrit'], o['Gcrit']], [0, 0])
+        if unclamped:
+            # Gibbs-Thomson at the critical radius
+            if not close(o['gExtra_at_Rcrit'], c['dG'], 1e-9, abs(c['Vm'] * c['E'])):
+                res.violate('gibbs-thomson-at-rcrit:' + ('E>0' if c['E'] else 'E=0'),
+                            'Gibbs-Thomson energy of a particle of the critical radius differs from the chemical driving force', desc,
+                            o['gExtra_at_Rcrit'], c['dG'])
+            for j in range(nR):
+                rr = o['R'][j] / o['Rcrit']
+                if abs(rr - 1) < 0.02:
+                    res.near_tie_skipped += 1
+                    continue
+                want = 1 if rr > 1 else -1
+                for name, gv in (('growth-law', o['growthMulti'][j]), ('kwn-multi', o['growthKWN'][j])):
+                    got = (gv > 0) - (gv < 0)
+                    if got != want:
+                        res.violate('%s-growth-sign:%s' % (name, 'E>0' if c['E'] else 'E=0'),
+                                    'multicomponent growth rate of a class %s the critical radius has the wrong sign (%s)' % ('above' if want > 0 else 'below', name),
+                                    dict(desc, R=o['R'][j], R_over_Rcrit=rr, dG_handed_to_growth_law=o['dG_handed']), gv, 'sign %+d' % want)
+                        break
+        else:
+            if o['vol'] > 0:
+                # clamped: classes between the proposal and Rmin grow (stated, not a violation); count them
+                prop = 2 * o['f_nuc'] * c['gamma'] / o['vol']
+                for j in range(nR):
+                    if prop * 1.02 < o['R'][j] < o['Rcrit'] * 0.98 and o['growthKWN'][j] > 0:
+                        res.count('formula:clamped-class-below-recorded-Rcrit-grows')
+        # binary sign
+        den = c['vr'] * c['xb'] - np.array(o['xaB'])
+        for j in range(nR):
+            if den[j] <= 0 or not (o['eff'][j] > 0) or abs(c['x'] - o['xaB'][j]) < 1e-12 * c['x']:
+                res.count('formula:binary-skipped(den<=0 or eff=0)')
+                continue
+            gv = o['growthBinary'][j]
+            want = 1 if c['x'] > o['xaB'][j] else -1
+            if ((gv > 0) - (gv < 0)) != want:
+                res.violate('binary-growth-sign', 'binary growth rate does not have the sign of x - x_alpha_i', dict(desc, j=j, xa_i=o['xaB'][j]), gv, 'sign %+d' % want)
+                break
+    return res
+
+
+# =====================================================================================================
+# part 2: ICScan model vs the real loop
+# =====================================================================================================
+class _Recorder:
+    """replaces kawin.thermo.BinTherm.Workspace at run time: records what enumerate_composition_sets yields"""
+    def __init__(self, BinTherm):
+        self.BT = BinTherm
+        self.orig = BinTherm.Workspace
+        self.log = []
+
+    def __enter__(self):
+        orig, log = self.orig, self.log
+
+        class RW(orig):
+            def enumerate_composition_sets(self_):
+                keys = list(self_.eq.coords.keys())
+                rec = dict(keys=keys, recs=[])
+                log.append(rec)
+                for idx, cs in super().enumerate_composition_sets():
+                    rec['recs'].append((tuple(int(i) for i in idx), [(c.phase_record.phase_name, [float(v) for v in c.X]) for c in cs]))
+                    yield idx, cs
+        self.BT.Workspace = RW
+        return self
+
+    def __exit__(self, *a):
+        self.BT.Workspace = self.orig
+
+
+class _FakeCS:
+    def __init__(self, name, X):
+        self.phase_record = types.SimpleNamespace(phase_name=name)
+        self.X = X
+
+
+class _FakeWorkspace:
+    KEYS = ['GE', 'N', 'P', 'T', 'X_ZR', 'vertex', 'component']
+
+    def __init__(self, recs):
+        self.recs = recs
+        self.eq = types.SimpleNamespace(coords={k: None for k in self.KEYS})
+
+    def enumerate_composition_sets(self):
+        for idx, cs in self.recs:
+            yield idx, [_FakeCS(n, X) for n, X in cs]
+
+
+def rec_fields(idx, cs, ge_pos, matrix, prec, c_idx):
+    """what the loop reads from one item, computed independently of the loop"""
+    names = [n for n, _ in cs]
+    two = len(names) == 2 and matrix in names and prec in names
+    xm = [X for n, X in cs if n == matrix][0][c_idx] if two else 0.0
+    xp = [X for n, X in cs if n == prec][0][c_idx] if two else 0.0
+    return idx[ge_pos], two, xm, xp
+
+
+def scan_line(n, fields):
+    return 'ic.scan %s %d %d %s' % (f2b(-1.0), n, len(fields), ' '.join('%d %s %s %s' % (ge, 'T' if two else 'F', f2b(xm), f2b(xp)) for ge, two, xm, xp in fields))
+
+
+def gen_g_array(rng, nmax):
+    kind = rng.choice(['psd', 'psd', 'grid', 'random', 'dup', 'scalar', 'high'])
+    n = 1 if kind == 'scalar' else rng.randint(2, nmax)
+    if kind == 'psd':
+        gam = 10 ** rng.uniform(-1.3, -0.3); Vm = 1e-5
+        R = np.linspace(10 ** rng.uniform(-10.2, -9.5), 10 ** rng.uniform(-8.5, -8), n)
+        g = Vm * 2 * gam / R
+    elif kind == 'grid':
+        g = np.linspace(0, rng.uniform(2000, 26000), n)
+    elif kind == 'random':
+        g = np.array([rng.uniform(0, 24000) for _ in range(n)])
+    elif kind == 'dup':
+        base = [rng.uniform(0, 22000) for _ in range(max(1, n // 2))]
+        g = np.array([rng.choice(base) for _ in range(n)])
+    elif kind == 'high':
+        g = np.array([rng.uniform(15000, 60000) for _ in range(n)])
+    else:
+        g = np.array([rng.choice([0.0, rng.uniform(0, 15000), 50000.0])])
+    return kind, g.astype(float)
+
+
+def part_scan(ctx, res):
+    vlib.use_repo()
+    import kwnruns
+    th = kwnruns.therm_binary()
+    from kawin.thermo import BinTherm
+    matrix, prec = th.phases[0], 'AL3ZR'
+    c_idx = 0 if th.reverse else 1
+    items = []       # (tag, desc, n, fields, impl_xa, impl_xb, g or None)
+    # ---------------- (a) real pycalphad records
+    nreal = ctx.n(9, 60)
+    with _Recorder(BinTherm) as rec:
+        for k in range(nreal):
+            kind, g = gen_g_array(ctx.rng, ctx.n(24, 90))
+            T = ctx.rng.uniform(560, 900)
+            del rec.log[:]
+            xa, xb = th._interfacialCompositionFromEq(T, g.copy(), prec)
+            xa, xb = np.atleast_1d(xa).astype(float), np.atleast_1d(xb).astype(float)
+            if len(rec.log) != 1:
+                raise RuntimeError('expected one Workspace enumeration per call, saw %d' % len(rec.log))
+            ge_pos = rec.log[0]['keys'].index('GE')
+            fields = [rec_fields(idx, cs, ge_pos, matrix, prec, c_idx) for idx, cs in rec.log[0]['recs']]
+            items.append(('real', dict(kind=kind, T=T, g=g.tolist()), len(g), fields, xa, xb, g))
+    # ---------------- (b) synthetic record patterns through the REAL loop
+    nsyn = ctx.n(400, 6000)
+    saved = BinTherm.Workspace
+    try:
+        for k in range(nsyn):
+            n = ctx.rng.randint(1, 9)
+            order = ctx.rng.choice(['sorted'] * 6 + ['shuffled', 'reversed'])
+            recs = []
+            for ge in range(n):
+                for _ in range(ctx.rng.choice([0, 1, 1, 2, 3, 4])):
+                    kind = ctx.rng.choice(['matrix', 'matrix', 'prec', 'two', 'two', 'two-rev', 'two-matrix', 'three', 'empty', 'other-two'])
+                    xm, xp = ctx.rng.uniform(0, 0.2), ctx.rng.uniform(0.2, 0.3)
+                    cs = {'matrix': [(matrix, [1 - xm, xm])], 'prec': [(prec, [1 - xp, xp])],
+                          'two': [(matrix, [1 - xm, xm]), (prec, [1 - xp, xp])], 'two-rev': [(prec, [1 - xp, xp]), (matrix, [1 - xm, xm])],
+                          'two-matrix': [(matrix, [1 - xm, xm]), (matrix, [0.4, 0.6])],
+                          'three': [(matrix, [1 - xm, xm]), (prec, [1 - xp, xp]), (matrix, [0.4, 0.6])], 'empty': [],
+                          'other-two': [(prec, [1 - xp, xp]), ('LIQUID', [0.5, 0.5])]}[kind]
+                    recs.append(((ge, 0, 0, 0, ctx.rng.randint(0, 9)), cs))
+            if order == 'shuffled':
+                ctx.rng.shuffle(recs)
+            elif order == 'reversed':
+                recs.reverse()
+            BinTherm.Workspace = lambda *a, _r=recs, **kw: _FakeWorkspace(_r)
+            xa, xb = th._interfacialCompositionFromEq(700.0, np.zeros(n), prec)
+            xa, xb = np.atleast_1d(xa).astype(float), np.atleast_1d(xb).astype(float)
+            fields = [rec_fields(idx, cs, 0, matrix, prec, c_idx) for idx, cs in recs]
+            items.append(('synthetic-' + order, dict(n=n, order=order, recs=[(idx[0], [nm for nm, _ in cs]) for idx, cs in recs]), n, fields, xa, xb, None))
+    finally:
+        BinTherm.Workspace = saved
+    model = vlib.run_driver(PROP, [scan_line(n, f) for _, _, n, f, _, _, _ in items]) if ctx.driver_ok else None
+    for k, (tag, desc, n, fields, xa, xb, g) in enumerate(items):
+        ges = [f[0] for f in fields]
+        ordered = all(a <= b for a, b in zip(ges, ges[1:]))
+        ntwo = sum(1 for f in fields if f[1])
+        res.case(('scan', tag, n, len(fields), ntwo, tuple(ges[:6]), float(xa[0])), ntwo > 0 and len(fields) > 1)
+        res.count('scan:' + tag); res.count('scan:records', len(fields))
+        if tag == 'real' and len(res.samples) < 3:
+            res.sample(dict(desc, records=len(fields), xalpha=xa.tolist()[:6]))
+        if model is not None:
+            t = Toks(model[k])
+            if not t.ok:
+                res.disagree('ic.scan model error', desc, 'ok', t.err)
+            else:
+                t.nat(); inr = t.bool(); mxa = t.flts(); mxb = t.flts()
+                if mxa != xa.tolist() or mxb != xb.tolist() or not inr:
+                    res.disagree('scan model vs _interfacialCompositionFromEq (%s)' % tag, desc, [xa.tolist(), xb.tolist()], [mxa, mxb])
+        # ---- direct oracle, independent of the model
+        if tag == 'real' and not ordered:
+            res.violate('records-not-ordered-by-GE', 'enumerate_composition_sets did not yield the records ordered by GE index (assumption of the scan theorems)', desc, ges[:20], 'non-decreasing')
+        if ordered:
+            for gi in range(n):
+                first = next((f for f in fields if f[0] == gi and f[1]), None)
+                if first is None:
+                    if xa[gi] != -1 or xb[gi] != -1:
+                        res.violate('sentinel-missing', 'no two-phase record at GE index %d but the entry is not the sentinel' % gi, desc, [xa[gi], xb[gi]], [-1, -1]); break
+                else:
+                    if xa[gi] != first[2] or xb[gi] != first[3]:
+                        res.violate('entry-not-first-two-phase-record', 'entry %d is not the composition of the first two-phase record at that GE index' % gi, desc, [xa[gi], xb[gi]], [first[2], first[3]]); break
+        else:
+            res.count('scan:unordered-records(as-is behaviour compared with the model only)')
+        if g is not None:
+            # monitored: sentinel monotone in g, x_alpha increasing in g (real thermodynamics)
+            o = np.argsort(g, kind='stable')
+            gs, xs = g[o], xa[o]
+            st = np.nonzero(xs == -1)[0]
+            if len(st) and not np.all(xs[st[0]:] == -1):
+                bad = [i for i in range(st[0], len(xs)) if xs[i] != -1]
+                if not all(gs[i] == gs[st[0]] for i in bad):
+                    res.violate('sentinel-not-monotone-in-g', 'precipitate reported unstable at some g but stable at a larger g', desc, [gs.tolist(), xs.tolist()])
+            ok = xs != -1
+            gv, xv = gs[ok], xs[ok]
+            for i in range(len(gv) - 1):
+                if gv[i + 1] > gv[i] * (1 + 1e-9) + 1e-6 and not xv[i + 1] > xv[i]:
+                    res.violate('xalpha-not-increasing-in-g', 'interfacial matrix composition does not rise with the Gibbs-Thomson energy', dict(desc, g_pair=[gv[i], gv[i + 1]]), [xv[i], xv[i + 1]]); break
+                if gv[i + 1] == gv[i] and xv[i + 1] != xv[i]:
+                    res.violate('xalpha-differs-for-equal-g', 'two entries with the same g have different compositions', desc, [xv[i], xv[i + 1]]); break
+            res.count('scan:real-sentinels', int(np.sum(xa == -1)))
+    part_lookup(ctx, res)
+
+
+def part_lookup(ctx, res):
+    """RdrivingForceIndex + prefix fill: the real _createLookupBinary on a real model, thermodynamics replaced by patterns"""
+    NR, PP, KE, SF, MT = _kawin()
+    from kawin.precipitation.PopulationBalance import PopulationBalanceModel
+    N = ctx.n(250, 4000)
+    items = []
+    for k in range(N):
+        n = ctx.rng.randint(2, 14)
+        pat = ctx.rng.choice(['prefix'] * 6 + ['none-unstable', 'all-unstable', 'holes'])
+        kk = {'prefix': ctx.rng.randint(1, n - 1), 'none-unstable': 0, 'all-unstable': n, 'holes': -1}[pat]
+        xa = np.array(sorted((ctx.rng.uniform(1e-4, 0.19) for _ in range(n)), reverse=True))
+        xb = np.full(n, 0.25)
+        if kk >= 0:
+            xa[:kk] = -1; xb[:kk] = -1
+        else:
+            for i in range(n):
+                if ctx.rng.random() < 0.4:
+                    xa[i] = -1; xb[i] = -1
+        with warnings.catch_warnings():
+            warnings.simplefilter('ignore')
+            m = KE.PrecipitateModel(phases=['P'], elements=['B'])
+        m.PBM[0] = PopulationBalanceModel(1e-10, 1e-8, n - 1)
+        p = m.precipitateParameters[0]
+        p.gamma = 0.1; p.volume.Vm = 1e-5
+
+        def gic(T, g, precPhase=None, _xa=xa, _xb=xb):
+            if np.ndim(g) == 0:
+                return np.array(1e-4), np.array(0.25)
+            return _xa.copy(), _xb.copy()
+        m.therm = types.SimpleNamespace(getInterfacialComposition=gic)
+        m._createLookupBinary(700.0)
+        items.append((pat, kk, n, xa, xb, int(m.RdrivingForceIndex[0]), m.PSDXalpha[0][:, 0].copy(), m.PSDXbeta[0][:, 0].copy()))
+    model = vlib.run_driver(PROP, ['ic.lookup %s %s %s' % (f2b(-1.0), enc_list(xa), enc_list(xb)) for _, _, _, xa, xb, _, _, _ in items]) if ctx.driver_ok else None
+    for k, (pat, kk, n, xa, xb, idx, fa, fb) in enumerate(items):
+        res.case(('lookup', pat, kk, n, float(xa[-1])), pat == 'prefix')
+        res.count('lookup:' + pat)
+        desc = dict(pattern=pat, first_stable=kk, n=n, xalpha=xa.tolist())
+        if model is not None:
+            t = Toks(model[k])
+            if not t.ok:
+                res.disagree('ic.lookup model error', desc, 'ok', t.err)
+            else:
+                mi = t.nat(); ma = t.flts(); mb = t.flts()
+                if mi != idx or ma != fa.tolist() or mb != fb.tolist():
+                    res.disagree('lookup model vs _createLookupBinary', desc, [idx, fa.tolist(), fb.tolist()], [mi, ma, mb])
+        if pat == 'prefix':
+            if idx != kk - 1:
+                res.violate('rdfi-not-last-unstable-index', 'RdrivingForceIndex is not the last index of the unstable prefix', desc, idx, kk - 1)
+            if np.any(fa == -1) or not np.all(fa[:kk] == xa[kk]):
+                res.violate('prefix-fill', 'sentinel left in the lookup table / unstable classes not given the first stable composition', desc, fa.tolist())
+        elif pat == 'all-unstable':
+            # as-is behaviour (theorem rdfi_all_unstable / fill_all_unstable_keeps_sentinel): index 0, table keeps -1
+            res.count('lookup:all-unstable:index=%d,table-%s' % (idx, 'sentinel' if np.all(fa == -1) else 'zero' if np.all(fa == 0) else 'other'))
+
+
+# =====================================================================================================
+# part 3: MONITORED thermodynamic clauses on grids (real pycalphad, Al-Zr; Cu-Ti in thorough)
+# =====================================================================================================
+METHODS = ['tangent', 'sampling', 'approximate', 'curvature']
+OFFSET = 1.0          # GeneralThermodynamics.gOffset
+
+
+def df(th, method, x, T):
+    th.setDrivingForceMethod(method)
+    try:
+        with warnings.catch_warnings():
+            warnings.simplefilter('ignore')
+            d, _ = th.getDrivingForce(x, T)
+    finally:
+        th.setDrivingForceMethod('tangent')
+    return None if d is None or np.ndim(d) > 0 and d.dtype == object else float(d)
+
+
+def part_thermo(ctx, res, th, system, prec, Ts, stoich=True):
+    vlib.use_repo()
+    tol_off = OFFSET * (1 + 1e-6) + 1e-6
+    for T in Ts:
+        gmax = ctx.rng.uniform(9000, 16000)
+        g = np.concatenate(([0.0], np.sort([ctx.rng.uniform(0, 1) ** 2 * gmax for _ in range(ctx.n(6, 12))])))
+        xa, xb = th.getInterfacialComposition(T, g.copy(), precPhase=prec)
+        xa = np.atleast_1d(xa).astype(float)
+        desc0 = dict(system=system, T=T)
+        if xa[0] == -1:
+            res.count('thermo:no-solvus'); continue
+        xeq = xa[0]
+        # ---- x_alpha(g) is where the driving force equals g (offset 1 J/mol); increasing in g; sentinel monotone
+        prevx = None
+        for gi, xi in zip(g, xa):
+            if xi == -1:
+                continue
+            if prevx is not None and not xi > prevx[1] and gi > prevx[0] * (1 + 1e-9) + 1e-6:
+                res.violate('xalpha-not-increasing-in-g', 'interfacial matrix composition does not rise with g', dict(desc0, g_pair=[prevx[0], gi]), [prevx[1], xi])
+            prevx = (gi, xi)
+            for mth in (['tangent', 'sampling', 'approximate'] if stoich else ['tangent', 'sampling']):
+                d = df(th, mth, xi, T)
+                res.case(('thermo', system, round(T, 3), round(gi, 6), mth), gi > 0)
+                res.count('thermo:DF(xalpha(g))=g:' + mth)
+                tol = tol_off + 1e-6 * abs(gi) if stoich else tol_off + 2e-3 * abs(gi) + 0.5
+                if d is None or abs(d - gi) > tol:
+                    res.violate('df-at-xalpha-differs-from-g:' + mth, 'driving force at the interfacial matrix composition returned for g is not g within the 1 J/mol offset',
+                                dict(desc0, g=gi, xalpha=xi, method=mth), d, '%g +- %g' % (gi, tol))
+        st = np.nonzero(xa == -1)[0]
+        if len(st) and not np.all(xa[st[0]:] == -1):
+            res.violate('sentinel-not-monotone-in-g', 'unstable at some g but stable at a larger g', dict(desc0, g=g.tolist()), xa.tolist())
+        # ---- sign change at the planar solvus, monotone in supersaturation, agreement of the methods
+        rels = sorted(set([0.3, 0.8, 0.95, 1.05, 1.3, 3.0, 10.0] + [10 ** ctx.rng.uniform(-0.7, 1.3) for _ in range(ctx.n(3, 8))] + [1.004, 1.015]))
+        xs = [xeq * r for r in rels if xeq * r < 0.1]
+        vals = {mth: [df(th, mth, x, T) for x in xs] for mth in METHODS}
+        for j, x in enumerate(xs):
+            r = x / xeq
+            desc = dict(desc0, x=x, x_over_solvus=r, xeq=xeq)
+            v = {mth: vals[mth][j] for mth in METHODS}
+            res.case(('thermo-x', system, round(T, 3), round(r, 6)), True)
+            res.count('thermo:DF(x)-points')
+            if any(val is None for val in v.values()):
+                res.violate('df-none', 'a driving-force method returned None inside the composition range', desc, v); continue
+            away = abs(r - 1) >= 0.04
+            if away:
+                want = 1 if r > 1 else -1
+                for mth in METHODS:
+                    if ((v[mth] > 0) - (v[mth] < 0)) != want:
+                        res.violate('df-sign-at-solvus:' + mth, 'driving force does not change sign at the planar solvus x_alpha(0)', desc, v[mth], 'sign %+d' % want)
+            else:
+                res.near_tie_skipped += 1
+            if stoich:
+                ref = v['tangent']
+                for mth in ('sampling', 'approximate'):
+                    if abs(v[mth] - ref) > tol_off + 1e-6 * abs(ref):
+                        res.violate('df-methods-value:' + mth, 'driving-force methods differ by more than the offset for the stoichiometric precipitate', desc, v, 'within %g of tangent' % tol_off)
+                dev = abs(v['curvature'] - ref)
+                if dev > tol_off + 1e-6 * abs(ref):
+                    if r > 1.02:
+                        # first-order (small supersaturation) expansion by construction: recorded finding
+                        res.violate('curvature-df-value-away-from-solvus', 'curvature method differs from the other methods by more than the offset away from the solvus', desc, v)
+                    else:
+                        res.violate('curvature-df-value-near-solvus', 'curvature method differs from the other methods by more than the offset near the solvus', desc, v)
+        for mth in METHODS:
+            vv = vals[mth]
+            for j in range(len(xs) - 1):
+                if vv[j] is not None and vv[j + 1] is not None and xs[j + 1] > xs[j] * (1 + 1e-6) and not vv[j + 1] > vv[j]:
+                    res.violate('df-not-increasing-with-supersaturation:' + mth, 'driving force does not increase with the matrix composition', dict(desc0, x_pair=[xs[j], xs[j + 1]], method=mth), [vv[j], vv[j + 1]])
+                    break
+
+
+# =====================================================================================================
+# part 4: MONITORED "classes above Rcrit grow, below shrink" at observer callbacks of real runs
+# =====================================================================================================
+def make_observer(res, tag, desc, stats):
+    def obs(m):
+        n = m.pData.n
+        for p in range(len(m.phases)):
+            pp = m.precipitateParameters[p]
+            Rc = float(m.pData.Rcrit[n, p]); dG = float(m.pData.drivingForce[n, p])
+            b = np.asarray(m.PBM[p].PSDbounds, dtype=float); g = np.asarray(m.growth[p], dtype=float)
+            stats['callbacks'] += 1
+            if len(g) != len(b) or not np.any(g != 0):
+                stats['skipped-no-growth'] += 1; continue
+            if not dG > 0:
+                stats['skipped-dG<=0'] += 1; continue
+            if Rc <= pp.Rmin * (1 + 1e-9):
+                stats['skipped-clamped'] += 1; continue
+            if not (b[0] < Rc < b[-1]):
+                stats['skipped-Rcrit-outside-grid'] += 1; continue
+            k = int(np.searchsorted(b, Rc))           # b[k-1] < Rc <= b[k]
+            above = [i for i in range(len(b)) if i >= k + 1]
+            below = [i for i in range(len(b)) if i <= k - 2]
+            stats['states'] += 1; stats['classes'] += len(above) + len(below)
+            ba = [i for i in above if not g[i] > 0]
+            bb = [i for i in below if not g[i] < 0]
+            if ba or bb:
+                i = (ba or bb)[0]
+                res.violate('run-%s-class-%s' % (tag, 'above-Rcrit-shrinks' if ba else 'below-Rcrit-grows'),
+                            'at an observer callback of a real run a size class %s pData.Rcrit %s' % (('larger than', 'does not grow') if ba else ('smaller than', 'does not shrink')),
+                            dict(desc, step=int(n), time=float(m.pData.time[n]), phase=str(m.phases[p]), Rcrit=Rc, drivingForce=dG, R=float(b[i]), class_index=i,
+                                 RdrivingForceIndex=int(m.RdrivingForceIndex[p])), float(g[i]), 'growth %s 0' % ('>' if ba else '<'))
+    return obs
+
+
+def run_case(ctx, res, cfg):
+    import kwnruns
+    from collections import Counter
+    stats = Counter()
+    if cfg['kind'] == 'binary':
+        m = kwnruns.build_binary(x0=cfg['x0'], T=cfg['T'], gamma=cfg['gamma'], site=cfg.get('site', 'dislocations'))
+    else:
+        m = kwnruns.build_ternary(x0=cfg['x0'], T=cfg['T'], gamma=cfg['gamma'])
+    pp = m.precipitateParameters[0]
+    if cfg.get('shape'):
+        pp.shapeFactor.setPrecipitateShape(cfg['shape'], cfg['ar'])
+    if cfg.get('E'):
+        pp.strainEnergy.setConstantElasticEnergy(cfg['E'])
+    with warnings.catch_warnings():
+        warnings.simplefilter('ignore')
+        with np.errstate(all='ignore'):
+            steps = kwnruns.run(m, cfg['time'], max_steps=cfg['steps'], observer=make_observer(res, cfg['kind'] + (':E>0' if cfg.get('E') else ''), cfg, stats))
+    res.traces += 1
+    res.case(('run', repr(sorted(cfg.items()))), stats['states'] > 0)
+    for k, v in stats.items():
+        res.count('run:%s:%s' % (cfg['kind'], k), v)
+    res.count('run:%s:steps' % cfg['kind'], steps)
+    return stats
+
+
+def part_runs(ctx, res):
+    r = ctx.rng
+    cfgs = [dict(kind='binary', x0=4e-3, T=723.15, gamma=0.1, time=3600 * 5, steps=ctx.n(300, 1800)),
+            dict(kind='ternary', x0=(0.098, 0.083), T=1073.0, gamma=0.023, time=1e4, steps=ctx.n(25, 250))]
+    cfgs.append(dict(kind='ternary', x0=(0.098, 0.083), T=1073.0, gamma=0.023, time=1e4, steps=ctx.n(8, 80), E=10 ** r.uniform(6.3, 7.3)))
+    if ctx.thorough:
+        for _ in range(3):
+            cfgs.append(dict(kind='binary', x0=10 ** r.uniform(-2.7, -2.2), T=r.uniform(650, 760), gamma=r.uniform(0.07, 0.14), time=3600 * 3, steps=600,
+                             site=r.choice(['dislocations', 'bulk'])))
+        cfgs.append(dict(kind='binary', x0=4e-3, T=723.15, gamma=0.1, time=3600, steps=400, shape='needle', ar=2.0, E=2e7))
+        cfgs.append(dict(kind='ternary', x0=(0.10, 0.085), T=r.uniform(1040, 1090), gamma=r.uniform(0.02, 0.03), time=1e4, steps=120, shape='plate', ar=1.5, E=5e6))
+    for cfg in cfgs:
+        run_case(ctx, res, cfg)
+
+
+# =====================================================================================================
+# entry points
+# =====================================================================================================
+def corr(ctx):
+    res = Result()
+    res.rule = ('(1) random parameter sets (shape x aspect ratio x strain energy x gamma x Vm x dG x Rmin x site) on REAL PrecipitateParameters / PrecipitateModel objects, 7 radii each around the critical radius: '
+                'generated definitions on Float vs the Python functions, and the algebraic clauses evaluated on the real outputs; non-trivial = positive volumetric driving force. '
+                '(2) scan model vs _interfacialCompositionFromEq: real Al-Zr equilibrium records captured from pycalphad for random T and g arrays (PSD-like decreasing, grids, random order, duplicates, beyond the stability limit) and synthetic record patterns '
+                '(ordered, shuffled, reversed; single-phase, two-phase in both orders, wrong pairs, three-phase, empty) run through the real loop; _createLookupBinary on sentinel patterns; non-trivial = at least one two-phase record and more than one record. '
+                '(3) monitored thermodynamic grid over T, g, x (Al-Zr, all four driving-force methods). (4) observer callbacks of real Al-Zr and Ni-Cr-Al runs. distinct = parameter tuple / (T, g, method) / run configuration')
+    res.monitored = list(MONITORED)
+    import kwnruns
+    part_formulas(ctx, res, ctx.n(250, 6000))
+    part_scan(ctx, res)
+    th = kwnruns.therm_binary()
+    Ts = [ctx.rng.uniform(580, 880) for _ in range(ctx.n(3, 14))]
+    part_thermo(ctx, res, th, 'Al-Zr', 'AL3ZR', Ts)
+    if ctx.thorough:
+        cu = therm_cuti()
+        if cu is not None:
+            part_thermo(ctx, res, cu, 'Cu-Ti', 'CU4TI', [ctx.rng.uniform(550, 750) for _ in range(5)], stoich=False)
+            res.count('thermo:Cu-Ti-loaded')
+        else:
+            res.count('thermo:Cu-Ti-not-available')
+    part_runs(ctx, res)
+    return res
+
+
+_CUTI = []
+
+
+def therm_cuti():
+    if not _CUTI:
+        path = os.path.join(vlib.REPO, 'examples', 'CuTi.tdb')
+        try:
+            vlib.use_repo()
+            from kawin.thermo import BinaryThermodynamics
+            with warnings.catch_warnings():
+                warnings.simplefilter('ignore')
+                th = BinaryThermodynamics(path, ['CU', 'TI'], ['FCC_A1', 'CU4TI'], drivingForceMethod='tangent')
+                th.setDFSamplingDensity(2000); th.setEQSamplingDensity(500)
+                th.setGuessComposition(0.15)
+                th.getInterfacialComposition(650.0, 0)
+            _CUTI.append(th)
+        except Exception as e:           # database not loadable offline: monitored clause not exercised, said so in the histogram
+            _CUTI.append(None)
+    return _CUTI[0]
+
+
+def search(ctx, broken):
+    """something no longer checks: direct oracle alone on a larger sample of the algebraic clauses (real functions),
+    with strain energy and non-spherical shapes over-represented, plus the run observers"""
+    res = Result()
+    res.rule = 'search: oracle-only formula cases on the real functions + run observers'
+    cases = []
+    for _ in range(ctx.n(1500, 12000)):
+        c = gen_formula_case(ctx.rng)
+        if ctx.rng.random() < 0.5:
+            c['E'] = 10 ** ctx.rng.uniform(5.5, 8.3); c['dG'] = abs(c['dG'])
+        cases.append(c)
+    check_formula_cases(ctx, res, cases, use_driver=False)
+    if not res.violations:
+        part_runs(ctx, res)
+    return res
+
+
+def replay(ctx, entry):
+    v = entry['violation']
+    c = v['case']
+    keys = ('shape', 'ar', 'E', 'gamma', 'Vm', 'dG', 'Rmin', 'site', 'mc', 'D', 'x', 'xa', 'xb', 'vr', 'Rrel', 'Rprev')
+    res = Result()
+    if all(k in c for k in keys):
+        check_formula_cases(ctx, res, [{k: c[k] for k in keys}], use_driver=False)
+    elif 'kind' in c and 'steps' in c:
+        cfg = {k: c[k] for k in ('kind', 'x0', 'T', 'gamma', 'time', 'steps', 'site', 'shape', 'ar', 'E') if k in c}
+        if isinstance(cfg['x0'], list):
+            cfg['x0'] = tuple(cfg['x0'])
+        run_case(ctx, res, cfg)
+    elif 'system' in c and 'T' in c:
+        import kwnruns
+        th = kwnruns.therm_binary() if c['system'] == 'Al-Zr' else therm_cuti()
+        part_thermo(ctx, res, th, c['system'], 'AL3ZR' if c['system'] == 'Al-Zr' else 'CU4TI', [c['T']], stoich=c['system'] == 'Al-Zr')
+    else:
+        return None
+    for w in res.violations:
+        print('  ', w['key'], w['what'], w['observed'], w['required'])
+    return not res.violations
